@@ -98,7 +98,7 @@ theorem v2Name_long {sfx : Str → Str} {k : Str} (h : k.length > 63) :
     v2Name sfx k = (safeKey k).take (63 - (sfx k).length) ++ sfx k := by
   simp [v2Name, h]
 
-theorem validName_v2 (sfx : Str → Str) (k : Str) (hk : IdOk k) (he : EdgeAlnum (safeKey k))
+theorem validName_v2 (sfx : Str → Str) (k : Str) (hk : IdOk k) (he : EdgeOk k)
     (hs : k.length > 63 → GoodSfx (sfx k)) : validNamePart (v2Name sfx k) = true := by
   have hall := all_safeKey hk.2
   by_cases h : k.length > 63
@@ -124,13 +124,13 @@ theorem validName_v2 (sfx : Str → Str) (k : Str) (hk : IdOk k) (he : EdgeAlnum
     · rw [safeKey_length]; exact hne
     · rw [safeKey_length]; exact h'
     · exact he.1
-    · exact he.2
+    · exact he.2 h'
     · exact hall
 
 theorem pyTake_nonneg (s : Str) {n : Int} (h : 0 ≤ n) : pyTake s n = s.take n.toNat := by
   simp [pyTake, h]
 
-theorem validName_v1 (p : Str) (sfx : Str → Str) (k : Str) (hk : IdOk k) (he : EdgeAlnum (safeKey k))
+theorem validName_v1 (p : Str) (sfx : Str → Str) (k : Str) (hk : IdOk k) (he : EdgeOkV1 p k)
     (hs : ¬ ((safeKey k).length : Int) ≤ 63 - ((pre p).length : Int) →
       GoodSfx (sfx (safeKey k)) ∧ (pre p).length + (sfx (safeKey k)).length < 63) :
     validNamePart (v1Name p sfx k) = true ∧ (pre p).length + (v1Name p sfx k).length ≤ 63 := by
@@ -148,7 +148,7 @@ theorem validName_v1 (p : Str) (sfx : Str → Str) (k : Str) (hk : IdOk k) (he :
       rw [pyTake_nonneg _ hnn, List.take_of_length_le]
       simp; omega
     rw [hv]
-    refine ⟨validNamePart_intro hne (by omega) he.1 he.2 hall, by omega⟩
+    refine ⟨validNamePart_intro hne (by omega) he.1 (he.2 (by rw [safeKey_length] at h; omega)) hall, by omega⟩
   · obtain ⟨⟨s1, s2, s3, s4⟩, hl⟩ := hs h
     have hsne : sfx (safeKey k) ≠ [] := by intro e; rw [e] at s1; simp at s1
     have hnn : (0 : Int) ≤ 63 - ((pre p).length : Int) - ((sfx (safeKey k)).length : Int) := by omega
@@ -271,6 +271,41 @@ theorem v2Key_ne_marker_long {p : Str} (hp : p ≠ []) (sfx : Str → Str) {k : 
   have : ("kopf-managed".toList).length = 12 := by decide
   omega
 
+
+/-! ## the guard `EdgeOk` is exact -/
+
+theorem headAlnum_append_of_ne {a : Str} (ha : a ≠ []) (b : Str) : headAlnum (a ++ b) = headAlnum a := by
+  cases a with
+  | nil => exact absurd rfl ha
+  | cons c cs => simp [headAlnum]
+
+theorem validQualified_split {p n : Str} (hp : ∀ c ∈ p, c ≠ '/') :
+    validQualified (p ++ '/' :: n) = (validPrefix p && validNamePart n) := by
+  simp [validQualified, splitSlash_append p n hp]
+
+theorem validNamePart_edges {n : Str} (h : validNamePart n = true) : headAlnum n = true ∧ lastAlnum n = true := by
+  simp [validNamePart] at h
+  exact ⟨h.1.1.2, h.1.2⟩
+
+/-- a valid V2 name forces `EdgeOk`: the guard of `valid_name_v2_partial` is not broader than F6 -/
+theorem edgeOk_of_valid_v2 (sfx : Str → Str) (k : Str) (hs : k.length > 63 → GoodSfx (sfx k))
+    (h : validNamePart (v2Name sfx k) = true) : EdgeOk k := by
+  obtain ⟨hh, hl⟩ := validNamePart_edges h
+  by_cases hk : k.length > 63
+  · obtain ⟨s1, s2, _, _⟩ := hs hk
+    refine ⟨?_, fun h63 => by omega⟩
+    rw [v2Name_long hk] at hh
+    have hne : (safeKey k).take (63 - (sfx k).length) ≠ [] := by
+      intro e
+      have hl' := v2Name_long_length (sfx := sfx) hk (by omega)
+      rw [e] at hl'
+      simp only [List.length_nil] at hl'
+      omega
+    rw [headAlnum_append_of_ne hne, headAlnum_take (by omega)] at hh
+    exact hh
+  · rw [v2Name_short (by omega)] at hh hl
+    exact ⟨hh, fun _ => hl⟩
+
 /-! ## how many names `make_keys` yields -/
 
 theorem v1Key_eq_v2Key_of_room {p : Str} {sfx : Str → Str} {k : Str}
@@ -373,5 +408,26 @@ theorem names_disjoint_hashed {p : Str} (hp : p ≠ []) {sfx : Str → Str} {k k
     rw [e1, e1'] at e2
     have := List.append_inj e2 (by rw [l1, l1', hsl])
     exact hsne this.2
+
+theorem v1Key_ne_marker_hashed {p : Str} (hp : p ≠ []) {sfx : Str → Str} {k : Str}
+    (hb : 63 < (pre p).length + k.length) (hroom : (pre p).length + (sfx (safeKey k)).length < 63)
+    (h51 : (pre p).length ≠ 51) : v1Key p sfx k ≠ markerName p := by
+  obtain ⟨e1, l1⟩ := v1Name_hashed hb hroom
+  rw [v1Key_eq, pre_of_ne hp]
+  intro e
+  have e' : p ++ '/' :: v1Name p sfx k = p ++ '/' :: "kopf-managed".toList := by
+    simpa [markerName] using e
+  have h2 := List.append_cancel_left e'
+  simp only [List.cons.injEq, true_and] at h2
+  have h3 := congrArg List.length h2
+  rw [e1, List.length_append, l1] at h3
+  have : ("kopf-managed".toList).length = 12 := by decide
+  omega
+
+/-- no V1 key without room: whenever prefix + `/` + suffix fill the 63 characters, `make_keys`
+    yields the V2 name only — for every id, every hash, whatever the `v1` flag (kopf e916847) -/
+theorem no_v1_key_without_room (p : Str) (v1 : Bool) (sfx : Str → Str) (k : Str)
+    (h : 63 ≤ (pre p).length + (sfx []).length) : makeKeys p v1 sfx k = [v2Key p sfx k] :=
+  makeKeys_single (Or.inr (Or.inl (by simp [v1Fits]; omega)))
 
 end Kopf.C16
